@@ -7,6 +7,9 @@ drives the REAL `scheDisp` + run service with 10-16 real mailboxes on it).
   sd reset                                  -> ok
   sd post mb=<m> msg=<id> gate=<0|1>        -> ran=<ids> off=<n> maxconc=<n> blk=<n>
   sd release                                -> ran=<ids> off=<n> maxconc=<n> blk=<n>
+  sd selfpost mb=<m> msg=<id>               -> ran=<ids> off=<n> maxconc=<n> blk=<n> sent=<0|1>
+                                               (the handler that occupies the loop goroutine posts; sent=0: no handler is
+                                               waiting for commands — none executing, or it is blocked inside Schedule)
   sd end                                    -> undelivered=<n>
 
 `ran`: messages handed to their invoker during the step, in order; `off`: how many of
@@ -39,6 +42,12 @@ def sdStep (s : St) (ws : List String) : St × String :=
       (s', obsOf s s')
     | _, _ => (s, "bad-op")
   | "sd" :: "release" :: _ => let s' := release s; (s', obsOf s s')
+  | "sd" :: "selfpost" :: _ =>
+    match kvNat ws "mb", kvNat ws "msg" with
+    | some mb, some msg =>
+      let s' := selfPost s mb msg
+      (s', obsOf s s' ++ s!" sent={if s.gateMb.isSome && !s.stuck then 1 else 0}")
+    | _, _ => (s, "bad-op")
   | "sd" :: "end" :: _ => (s, s!"undelivered={s.mq.length}")
   | _ => (s, "bad-op")
 
@@ -74,6 +83,7 @@ def specSd (sp : SpS) (op obs : String) : SpS × String :=
   | "sd" :: _ =>
     let sp := match ws with
       | "sd" :: "post" :: _ => { sp with posted := sp.posted ++ [(kvNat ws "msg").getD 0] }
+      | "sd" :: "selfpost" :: _ => if kv ows "sent" == some "1" then { sp with posted := sp.posted ++ [(kvNat ws "msg").getD 0] } else sp
       | _ => sp
     let (sp', r) := checkRan sp (parseIds ((kv ows "ran").getD ""))
     if (kvNat ows "off").getD 0 > 0 then (sp', s!"VIOLATION C09/off-dispatcher-goroutine a mailbox run executed on a goroutine other than the dispatcher's: {op} -> {obs}")
